@@ -35,15 +35,13 @@ impl PartialOrd for Epoch {
 impl Epoch {
     /// contract of the real `u64::abs_diff`
     //@extract file=mithril-common/src/entities/epoch.rs fn=has_gap_with within="impl Epoch"
-    //@ rewrite /self\.0\.abs_diff\(other\.0\)/ => /u64_abs_diff(self.0, other.0)/
     //@ spec ensures ret == !(self.0 == other.0 || self.0 as int + 1 == other.0 as int || other.0 as int + 1 == self.0 as int)
     //@end
 }
 
-#[verifier::external_body]
-fn u64_abs_diff(a: u64, b: u64) -> (r: u64)
-    ensures r as int == (if a >= b { a - b } else { b - a })
-{ a.abs_diff(b) }
+/// std semantics of u64::abs_diff
+pub assume_specification[u64::abs_diff](a: u64, b: u64) -> (r: u64)
+    ensures r as int == (if a >= b { a - b } else { b - a });
 
 // ---- abstract entities -----------------------------------------------------------------------------------
 #[verifier::external_body] pub struct ProtocolParameters { _p: core::marker::PhantomData<u8> }
@@ -342,7 +340,7 @@ impl MithrilCertificateVerifier {
     //@extract file=mithril-common/src/certificate_chain/certificate_verifier.rs fn=verify_standard_certificate_integrity
     //@ rewrite /StdResult<\(\)>/ => /Result<(), CertificateVerifierError>/
     //@ rewrite /certificate\.signed_message\.as_bytes\(\)/ => /string_as_bytes(&certificate.signed_message)/
-    //@ rewrite /\|ancillary_verifier_data\| (ancillary_verifier_data\.\w+\(\))/ => /|ancillary_verifier_data: AncillaryVerifierData| -> (r: AncillaryInner) ensures r == anc_inner(ancillary_verifier_data) { \1 }/
+    //@ rewrite /\|ancillary_verifier_data\|\s*(?:\{\s*)?(ancillary_verifier_data\.\w+\(\))(?:\s*\})?/ => /|ancillary_verifier_data: AncillaryVerifierData| -> (r: AncillaryInner) ensures r == anc_inner(ancillary_verifier_data) { \1 }/
     //@ spec ensures ret is Ok ==> integrity(certificate)
     //@end
 
@@ -374,7 +372,7 @@ impl MithrilCertificateVerifier {
     //@ rewrite /\.await/ => //
     //@ rewrite /StdResult<Option<Certificate>>/ => /Result<Option<Certificate>, CertificateVerifierError>/
     //@ rewrite /debug!\([^;]*;[^;]*\);/ => //
-    //@ rewrite /\|aggregate_signature_type\| (aggregate_signature_type\.\w+\(\))/ => /|aggregate_signature_type: AggregateSignatureType| -> (r: bool) ensures r == false { \1 }/
+    //@ rewrite /\|aggregate_signature_type\|\s*(?:\{\s*)?(aggregate_signature_type\.\w+\(\))(?:\s*\})?/ => /|aggregate_signature_type: AggregateSignatureType| -> (r: bool) ensures r == false { \1 }/
     //@ spec ensures ret is Ok && ret->Ok_0 is None ==> genesis_ok(certificate),
     //@ spec         ret is Ok && ret->Ok_0 is Some ==> retrieved(certificate.previous_hash@, &ret->Ok_0->Some_0) && standard_link(certificate, &ret->Ok_0->Some_0),
     //@end
